@@ -207,6 +207,31 @@ func ops() []op {
 			return err
 		}})
 	}
+	// one *SelectOptions value used for two calls with different filters (a rejected call followed by a retry, options
+	// first used for another shard): the second call is judged, every statement of both must be confined
+	for _, pr := range [][2]int{{3, 0}, {4, 1}, {0, 3}, {1, 4}, {4, 9}, {13, 11}, {5, 1}, {1, 2}} {
+		fa, fb := filters[pr[0]], filters[pr[1]]
+		comp := func(lim map[string]driver.Value) bool { return hasAll(lim, filterVals(fb.f)) }
+		for _, o := range opts[1:] {
+			o := o
+			out = append(out, op{name: "Query(options reused after " + fa.name + ")" + o.name + fb.name, table: "accts", complies: comp, multi: true, run: func(ctx context.Context, e *env) error {
+				shared := o.o()
+				var first, rows []*Acct
+				e.db.Query(ctx, &first, fa.f, shared)
+				return e.db.Query(ctx, &rows, fb.f, shared)
+			}})
+		}
+		out = append(out, op{name: "QueryRow(options reused after " + fa.name + ")" + fb.name, table: "accts", complies: comp, multi: true, run: func(ctx context.Context, e *env) error {
+			shared := &sqlgen.SelectOptions{}
+			var first, row *Acct
+			e.db.QueryRow(ctx, &first, fa.f, shared)
+			err := e.db.QueryRow(ctx, &row, fb.f, shared)
+			if err != nil && (strings.Contains(err.Error(), "no rows") || strings.Contains(err.Error(), "no more than 1")) {
+				return nil
+			}
+			return err
+		}})
+	}
 	accts := []*Acct{{10, 1, "us", "n", nil}, {11, 1, "eu", "n", &one}, {12, 2, "us", "n", nil}, {13, 2, "eu", "n", nil}, {1, 1, "us", "changed", nil}, {3, 2, "us", "changed", nil}}
 	rowVals := func(a *Acct) map[string]driver.Value {
 		return map[string]driver.Value{"id": a.Id, "org_id": a.OrgId, "region": a.Region, "name": a.Name}
